@@ -138,3 +138,72 @@ def is_optional(decl):
 
 def scene_optional_ids(scene):
     return [d["id"] for d in scene if d["k"] == "new" and d["cls"] in dsl.TASK_CLS and is_optional(d)]
+
+
+# --------------------------------------------------------------------------- interaction alphabet
+def interaction_programs(tier):
+    """Cross product of task-attribute variants x resource set-ups x one further element (constraint, buffer,
+    indicator) on a two-task scene: (label, kind_of_extra, program). Exists because single-family alphabets
+    miss defects that need two different kinds of elements at once."""
+    H = 4
+    T = {
+        "plain": lambda: [fixed("a", 2), fixed("b", 1)],
+        "a-optional": lambda: [fixed("a", 2, optional=True), fixed("b", 1)],
+        "b-optional": lambda: [fixed("a", 2), fixed("b", 1, optional=True)],
+        "dates": lambda: [fixed("a", 2, due_date=2, due_date_is_deadline=False), fixed("b", 1, release_date=2)],
+        "deadline": lambda: [fixed("a", 2, due_date=3), fixed("b", 1, release_date=1, optional=True)],
+        "var+work": lambda: [var("a", work_amount=2, max_duration=3), fixed("b", 1)],
+        "zero": lambda: [fixed("a", 2), zero("b")],
+        "var-optional": lambda: [var("a", min_duration=1, max_duration=2, optional=True), fixed("b", 2)],
+    }
+    Rs = {
+        "none": [],
+        "shared": [worker("w"), req("a", "w"), req("b", "w")],
+        "two": [worker("w"), worker("v"), req("a", "w"), req("a", "v"), req("b", "w")],
+        "select-a": [worker("w"), worker("v"), select("s", ["w", "v"]), req("a", "s"), req("b", "w")],
+        "select-b": [worker("w"), worker("v"), select("s", ["w", "v"], 1, "min"), req("b", "s"), req("a", "w")],
+        "cumulative": [cumul("w", 2), req("a", "w"), req("b", "w")],
+        "cumulative-p": [cumul("w", 2, productivity=3), req("a", "w"), req("b", "w")],
+        "dynamic": [worker("w", productivity=2), req("a", "w", dynamic=True), req("b", "w")],
+        "delay": [worker("w"), req("a", "w", delay_in=1), req("b", "w", early_out=1)],
+    }
+    needs_w = lambda c: c
+    X = [
+        ("task", "startat", [con("TaskStartAt", "x", task=R("b"), value=2)], False),
+        ("task", "endbefore-strict-H", [con("TaskEndBefore", "x", task=R("a"), value=H, kind="strict")], False),
+        ("task", "startafter-0", [con("TaskStartAfter", "x", task=R("a"), value=0, kind="strict")], False),
+        ("task", "precedence-tight", [con("TaskPrecedence", "x", task_before=R("b"), task_after=R("a"), kind="tight", offset=1)], False),
+        ("task", "endsynced", [con("TasksEndSynced", "x", task_1=R("a"), task_2=R("b"))], False),
+        ("task", "dontoverlap", [con("TasksDontOverlap", "x", task_1=R("a"), task_2=R("b"))], False),
+        ("task", "contiguous", [con("TasksContiguous", "x", list_of_tasks=[R("b"), R("a")])], False),
+        ("task", "group-tight", [con("OrderedTaskGroup", "x", list_of_tasks=[R("b"), R("a")], kind="tight", time_interval=(0, H))], False),
+        ("task", "schedule-n", [con("ScheduleNTasksInTimeIntervals", "x", list_of_tasks=[R("a"), R("b")], nb_tasks_to_schedule=1, list_of_time_intervals=[(0, 2), (2, H)], kind="min")], False),
+        ("task", "xor", [con("Xor", "x", constraint_1={"$new": con("TaskStartAt", "n1", task=R("a"), value=0)}, constraint_2={"$new": con("TaskStartAt", "n2", task=R("b"), value=0)})], False),
+        ("task", "optional-constraint", [con("TaskStartAt", "x", task=R("a"), value=1, optional=True)], False),
+        ("resource", "unavailable-straddling-H", [con("ResourceUnavailable", "x", resource=R("w"), list_of_time_intervals=[(H - 1, H + 2)])], True),
+        ("resource", "unavailable-0", [con("ResourceUnavailable", "x", resource=R("w"), list_of_time_intervals=[(0, 1)])], True),
+        ("resource", "workload-max", [con("WorkLoad", "x", resource=R("w"), kind="max", dict_time_intervals_and_bound={"$tupkeys": [[[0, 2], 1]]})], True),
+        ("resource", "workload-min", [con("WorkLoad", "x", resource=R("w"), kind="min", dict_time_intervals_and_bound={"$tupkeys": [[[1, 3], 2]]})], True),
+        ("resource", "periodic", [con("ResourcePeriodicallyUnavailable", "x", resource=R("w"), list_of_time_intervals=[(0, 1)], period=3)], True),
+        ("resource", "interrupted", [con("ResourceInterrupted", "x", resource=R("w"), list_of_time_intervals=[(1, 2)])], True),
+        ("resource", "distance", [con("ResourceTasksDistance", "x", resource=R("w"), distance=1, mode="min")], "plain"),
+        ("resource", "nondelay", [con("ResourceNonDelay", "x", resource=R("w"))], "plain"),
+        ("buffer", "nc-buffer", [new("NonConcurrentBuffer", "bf", name="bf", initial_level=1, final_level=0, lower_bound=0),
+                                 con("TaskUnloadBuffer", "u", task=R("a"), buffer=R("bf"), quantity=2), con("TaskLoadBuffer", "l", task=R("b"), buffer=R("bf"), quantity=1)], False),
+        ("buffer", "c-buffer", [new("ConcurrentBuffer", "bf", name="bf", initial_level=0, upper_bound=1),
+                                con("TaskLoadBuffer", "l", task=R("a"), buffer=R("bf"), quantity=1), con("TaskUnloadBuffer", "u", task=R("b"), buffer=R("bf"), quantity=1)], False),
+    ]
+    out = []
+    for tl, tf in T.items():
+        for rl, rdecls in Rs.items():
+            if tl == "var+work" and rl == "none":
+                continue
+            for (kind, xl, xdecls, needs) in X + [("none", "bare", [], False)]:
+                if needs and rl == "none":
+                    continue
+                if needs == "plain" and rl in ("cumulative", "cumulative-p"):
+                    continue
+                if tier == "quick" and (sum(map(ord, tl + rl + xl)) % 3):
+                    continue
+                out.append((f"{tl}/{rl}/{xl}", kind if kind != "none" else ("resource0" if rl != "none" else "task0"), prog(H, tf() + list(rdecls) + list(xdecls))))
+    return out
